@@ -249,6 +249,27 @@ def _raised(v):
     return None
 
 
+def _raised_inside(v):
+    """a raised exception among the direct components of a freshly built value (an element of a list display, an operand,
+    an argument of an uninterpreted or constructor call), else None"""
+    if isinstance(v, CallV):
+        if _raised(v):
+            return v
+        parts = v.args + ([v.recv] if v.recv is not None else [])
+    elif isinstance(v, ListV):
+        parts = v.items
+    elif isinstance(v, CatV):
+        parts = v.parts
+    elif isinstance(v, New):
+        parts = v.args
+    else:
+        return None
+    for x in parts:
+        if isinstance(x, CallV) and _raised(x):
+            return x
+    return None
+
+
 class SymEx:
     def __init__(self, repo, universe=None, inline=None, opaque=None, max_depth=8, ignore_calls=('_debug',)):
         """universe(path) -> iterable of class names a pattern variable may have (None = unknown);
@@ -841,6 +862,19 @@ class SymEx:
         return val
 
     def ev(self, e, st, func):
+        """-> list of (state, value).  An exception raised while a part of the expression is evaluated is the value of the
+        whole expression (the statement that contains it is then abandoned)."""
+        if isinstance(e, (ast.Call, ast.ListComp, ast.GeneratorExp, ast.List, ast.Tuple, ast.BinOp, ast.JoinedStr, ast.BoolOp,
+                          ast.IfExp, ast.Subscript, ast.Attribute, ast.Starred, ast.Dict, ast.SetComp, ast.DictComp)):
+            outs = self._ev(e, st, func)
+            for i, (s2, v) in enumerate(outs):
+                r = _raised_inside(v)
+                if r is not None and r is not v:
+                    outs[i] = (s2, r)
+            return outs
+        return self._ev(e, st, func)
+
+    def _ev(self, e, st, func):
         if e is None:
             return [(st, Const(None))]
         if isinstance(e, ast.Constant):
@@ -951,6 +985,9 @@ class SymEx:
             first = self.ev(e.values[0], st, func)
             rest = e.values[1] if len(e.values) == 2 else ast.BoolOp(op=e.op, values=e.values[1:])
             for s2, a in first:
+                if isinstance(a, CallV) and _raised(a):
+                    out.append((s2, a))
+                    continue
                 for br, s3 in self.truthy(a, s2, e.values[0]):
                     if br == isinstance(e.op, ast.Or):
                         out.append((s3, a))
@@ -1247,6 +1284,10 @@ class SymEx:
                         for kk, vv in res[0][1].pairs:
                             if isinstance(kk, Const):
                                 kw[kk.v] = vv
+                bad = [a for a in args + list(kw.values()) if isinstance(a, CallV) and _raised(a)]
+                if bad:
+                    outs.append((s3, bad[0]))       # an argument raised: the call does not happen
+                    continue
                 outs.extend(self.apply(e, f, args, kw, s3, func))
         return outs
 
